@@ -40,6 +40,12 @@ def first_snip(cid, k=0):
     return c[k % len(c)]["idx"] if c else None
 
 
+def _same_file(reported: str, rel: str) -> bool:
+    """failedFiles entries are full paths of the (normalised) sandbox: <S>/T/<rel>.  Compare the whole relative path - a
+    suffix test confuses `b.py` with `app/b.py`."""
+    return reported == rel or reported.endswith("/T/" + rel)
+
+
 def corrupt(kind, data: bytes) -> bytes:
     if kind == "bad-utf8":
         return data + b"\nx_bad = '\xff\xfe'\n"
@@ -289,7 +295,7 @@ class C10(Check):
         for name, kind in info["bad"].items():
             for cid in ids:
                 res = (rf.get(cid) or [{}])[0]
-                failed = [x for x in (res.get("failedFiles") or []) if x.endswith("/" + name)]
+                failed = [x for x in (res.get("failedFiles") or []) if _same_file(x, name)]
                 ci = G.info(cid)
                 if kind == "fifo":
                     continue  # not a regular file: leaving it out of the selection and listing it as failed are both acceptable
@@ -319,7 +325,7 @@ class C10(Check):
                 continue
             cid = ids[s["k"]]
             res = (rf.get(cid) or [{}])[0]
-            failed = [x for x in (res.get("failedFiles") or []) if x.endswith("/" + s["file"])]
+            failed = [x for x in (res.get("failedFiles") or []) if _same_file(x, s["file"])]
             if s["kind"] == "codegen-raise" and s["file"] not in [c.get("path") for c in ((rr.get(cid) or [{}])[0].get("changeset") or [])]:
                 continue  # the unrenderable tree is only rendered when the codemod has a change to report for that file
             if not failed:
@@ -336,8 +342,8 @@ class C10(Check):
                 continue
             for j in range(s["k"] + 1, len(ids)):
                 cid = ids[j]
-                fa = [x for x in ((rf.get(cid) or [{}])[0].get("failedFiles") or []) if x.endswith("/" + s["file"])]
-                fr = [x for x in ((rr.get(cid) or [{}])[0].get("failedFiles") or []) if x.endswith("/" + s["file"])]
+                fa = [x for x in ((rf.get(cid) or [{}])[0].get("failedFiles") or []) if _same_file(x, s["file"])]
+                fr = [x for x in ((rr.get(cid) or [{}])[0].get("failedFiles") or []) if _same_file(x, s["file"])]
                 if fa and not fr:
                     add("fault-leaks-to-later-codemod", s["kind"], {"file": s["file"], "faulted_codemod_index": s["k"], "later_codemod": cid})
         # (3) everything else as in the reference
